@@ -872,6 +872,13 @@ func (tb *TB) BV2Nat(a *Term) *Term {
 	if a.IsConst() {
 		return tb.IntConst(a.BigVal())
 	}
+	if a.Op == OInt2BV {
+		// bv2nat(int2bv_w(y)) = y mod 2^w
+		return tb.IBin(OIMod, a.A[0], tb.IntConst(new(big.Int).Lsh(big.NewInt(1), uint(a.S.W))))
+	}
+	if a.Op == OZext {
+		return tb.BV2Nat(a.A[0])
+	}
 	return tb.mk(&Term{Op: OBV2Nat, S: SInt, A: []*Term{a}})
 }
 
